@@ -34,7 +34,7 @@ META = dict(
          "PandasStore(...).compute_aggregate()/save() [thorough: L<=3,k<=3 and L<=2,k<=4 over the 6-symbol "
          "alphabet]. states = histories executed; canonical states (multisets) are counted; the per-position "
          "reference (max precedence over unmasked flag entries, MISSING if none) is order-free, so equality on every "
-         "Scale: 5000-entry vectors (k<=5), a single non-GOOD entry at block-edge positions (0, 511, 1023, 1024, 2047, 2048, 4095, 4096, 4999), 6-33 vectors with the only non-GOOD entries in the j-th (every j), stores of 9/13/33 streams. history is confluence. non-trivial = at least two different entries compete at some position",
+         "history is confluence. Scale: 5000-entry vectors (k<=5), a single non-GOOD entry at block-edge positions (0, 511, 1023, 1024, 2047, 2048, 4095, 4096, 4999), 6-33 vectors with the only non-GOOD entries in the j-th (every j), stores of 9/13/33 streams. non-trivial = at least two different entries compete at some position",
     bounds={"quick": {"L": 2, "k": "3 (L=1: 9 symbols; L=2: 7 symbols), 2 (L=2: 9 symbols)"}, "thorough": {"L": "2 (9 symbols, k<=3); 3 (6 symbols, k<=3); 2 (6 symbols, k=4)"}},
     not_judged=["vectors of unequal length (rejected by assertion)"],
     assumptions=[],
